@@ -9,14 +9,19 @@ for d in sorted(glob.glob('/verif/seeded/C*-[A-D]')):
     def section(name):
         m=re.search(r'^##\s*'+name+r'.*?\n(.*?)(?=^##\s|\Z)',notes,re.S|re.M|re.I)
         return m.group(1).strip() if m else ''
+    def first(*names):
+        for n in names:
+            t=section(n)
+            if t: return t
+        return ''
     ver=json.load(open(d+'/verify.json')) if os.path.exists(d+'/verify.json') else {}
     det=json.load(open(d+'/detect.json')) if os.path.exists(d+'/detect.json') else {}
     extra=json.load(open(d+'/override.json')) if os.path.exists(d+'/override.json') else {}
     meta={
      "id":id,"property_it_breaks":id.split('-')[0],"title":title,
-     "what_it_breaks":section('What it breaks')[:3000],
-     "what_it_needs_to_manifest":section('What is needed')[:3000],
-     "why_existing_tests_pass":section('Why the existing tests')[:2000],
+     "what_it_breaks":(first('What it breaks','What breaks','What it violates','How it breaks','Why it breaks','The defect','Effect','Breaks') or notes[len(title)+2:2000]).strip()[:3000],
+     "what_it_needs_to_manifest":first('What is needed','What it needs','What it takes','Needed to manifest','To manifest','Trigger','When it manifests','Manifest')[:3000],
+     "why_existing_tests_pass":first('Why the existing tests','Why existing tests','Why tests','Existing tests')[:2000],
      "files":["patch.diff","demo_test.go (header: DEST = where it goes in the tree, RUN = command)","notes.md"],
      "what_was_run":{
        "verification (tools/verify_seeds.sh, scratch worktree of /repo at HEAD)":{
